@@ -168,3 +168,6 @@ pub fn v_concat2(a: Vec<u8>, b: Vec<u8>) -> (r: Vec<u8>)
 pub assume_specification<T> [<[T]>::to_vec] (s: &[T]) -> (r: Vec<T>)
     where T: Clone
     ensures r@ == s@;
+
+pub assume_specification<T> [<[T]>::reverse] (s: &mut [T])
+    ensures final(s)@ == old(s)@.reverse();
